@@ -40,6 +40,7 @@ func (r *Res) setFattr(f nt.Fattr3) {
 	r.Size = uint64(f.Size)
 	r.Fileid = uint64(f.Fileid)
 	r.Nlink = uint32(f.Nlink)
+	r.Attrs = fmt.Sprintf("mode=%o nlink=%d uid=%d gid=%d rdev=%d/%d fsid=%d ctime=%d.%d", uint32(f.Mode), uint32(f.Nlink), uint32(f.Uid), uint32(f.Gid), uint32(f.Rdev.Specdata1), uint32(f.Rdev.Specdata2), uint64(f.Fsid), uint32(f.Ctime.Seconds), uint32(f.Ctime.Nseconds))
 	r.Atime = [2]uint32{uint32(f.Atime.Seconds), uint32(f.Atime.Nseconds)}
 	r.Mtime = [2]uint32{uint32(f.Mtime.Seconds), uint32(f.Mtime.Nseconds)}
 }
@@ -60,6 +61,14 @@ func sattrOf(op *Op) nt.Sattr3 {
 	s.Atime.Atime = tm(op.Atime)
 	s.Mtime.Set_it = nt.Time_how(op.SetMtime)
 	s.Mtime.Mtime = tm(op.Mtime)
+	if op.SetPerm {
+		s.Mode.Set_it = true
+		s.Mode.Mode = nt.Mode3(op.Perm)
+	}
+	if op.SetIDs {
+		s.Uid.Set_it, s.Gid.Set_it = true, true
+		s.Uid.Uid, s.Gid.Gid = nt.Uid3(op.UidV), nt.Gid3(op.GidV)
+	}
 	return s
 }
 
@@ -137,11 +146,8 @@ func doOp(api API, op *Op) *Res {
 		}
 	case OpCreate:
 		how := nt.Createhow3{Mode: nt.Createmode3(op.Mode)}
-		if op.SetSize {
-			// initial attributes of the new file (UNCHECKED/GUARDED): a size
-			how.Obj_attributes.Size.Set_it = true
-			how.Obj_attributes.Size.Size = nt.Size3(op.Size)
-		}
+		// initial attributes of the new file (UNCHECKED/GUARDED): size, times, permission bits
+		how.Obj_attributes = sattrOf(op)
 		x := api.NFSPROC3_CREATE(nt.CREATE3args{Where: nt.Diropargs3{Dir: fh3(op.H), Name: nt.Filename3(op.Name)}, How: how})
 		r.Stat = uint32(x.Status)
 		if x.Status == nt.NFS3_OK {
@@ -149,14 +155,14 @@ func doOp(api API, op *Op) *Res {
 			r.setAttr(x.Resok.Obj_attributes)
 		}
 	case OpMkdir:
-		x := api.NFSPROC3_MKDIR(nt.MKDIR3args{Where: nt.Diropargs3{Dir: fh3(op.H), Name: nt.Filename3(op.Name)}})
+		x := api.NFSPROC3_MKDIR(nt.MKDIR3args{Where: nt.Diropargs3{Dir: fh3(op.H), Name: nt.Filename3(op.Name)}, Attributes: sattrOf(op)})
 		r.Stat = uint32(x.Status)
 		if x.Status == nt.NFS3_OK {
 			r.setFH(x.Resok.Obj)
 			r.setAttr(x.Resok.Obj_attributes)
 		}
 	case OpSymlink:
-		x := api.NFSPROC3_SYMLINK(nt.SYMLINK3args{Where: nt.Diropargs3{Dir: fh3(op.H), Name: nt.Filename3(op.Name)}, Symlink: nt.Symlinkdata3{Symlink_data: nt.Nfspath3(op.Target)}})
+		x := api.NFSPROC3_SYMLINK(nt.SYMLINK3args{Where: nt.Diropargs3{Dir: fh3(op.H), Name: nt.Filename3(op.Name)}, Symlink: nt.Symlinkdata3{Symlink_attributes: sattrOf(op), Symlink_data: nt.Nfspath3(op.Target)}})
 		r.Stat = uint32(x.Status)
 		if x.Status == nt.NFS3_OK {
 			r.setFH(x.Resok.Obj)
